@@ -142,8 +142,9 @@ def evaluate__parenthesized_expression(self: XPathToken, context: ta.ContextType
 @method(infix('||', bp=32))
 def evaluate__union_operator(self: XPathToken, context: ta.ContextType = None) -> str:
 
-    return self.string_value(self.get_argument(context)) + \
-        self.string_value(self.get_argument(context, index=1))
+    # the operands are atomized: the typed value of a schema-typed node is cast to xs:string
+    return self.string_value(self.data_value(self.get_argument(context))) + \
+        self.string_value(self.data_value(self.get_argument(context, index=1)))
 
 
 @method(infix('!', bp=72))
